@@ -17,8 +17,8 @@ import httpgen as G
 import httpcorr as H
 import httpcases as CS
 
-THEOREMS = ["C11_no_5xx_refuted", "C11_no_5xx_partial", "C11_4xx_body", "C11_rejected_unchanged", "C11_ok_status",
-            "C11_example_hypotheses", "C11_example_excluded"]
+THEOREMS = ["C11_no_5xx", "C11_no_5xx_partial", "C11_own_ids_reachable", "C11_4xx_body", "C11_rejected_unchanged", "C11_ok_status",
+            "C11_example_hypotheses", "C11_example_renamed"]
 VO = ["theories/props/C11.vo", "theories/model/HttpObs.vo"]
 
 
@@ -194,7 +194,8 @@ def run(chk):
         "tools/c11.py, httpcorr.py, httpgen.py, httpcases.py (generators, canonicalisers, oracle), tools/common.py",
     ]
     chk.assumptions = ["req_ok: the request carries the idShort path its route declares (guaranteed by werkzeug's matcher)",
-                       "own_ids + no_update_failure: hypotheses of C11_no_5xx_partial = the two excluded input classes (open findings)"]
+                       "C11_no_5xx is stated for the stores reached by request histories from an empty store; for a pre-filled store "
+                       "it needs own_ids (every object filed under its own id), which every ObjectStore.add establishes"]
     return chk.finish(level="proof",
                       rule="route x method x {identifier, idShort path, body, Accept, query} malformation matrix, one variation at a time "
                            "around a valid request on a fixture with nested elements/files/qualifiers (quick: bodies sampled at 12%, "
